@@ -235,8 +235,20 @@ def rtruediv (R : Registry) (m : Mode) (x : Rat) (a : Qty) : Except Err Qty :=
 def operandsMult (R : Registry) (a : Qty) (b : Operand) : Bool :=
   R.isMultQ a && (match b with | .q b => R.isMultQ b | .num _ => true)
 
+/-- the F82 repair: two quantities of different dimensionality are refused by `//`, `%` and `divmod` before anything else
+    (for multiplicative operands the conversion refuses them anyway; this decides which error an operand on an offset
+    scale meets first) -/
+def dimsDiffer (R : Registry) (a : Qty) (b : Operand) : Bool :=
+  match b with
+  | .num _ => false
+  | .q b =>
+    match R.getDimensionality a.units, R.getDimensionality b.units with
+    | .ok da, .ok db => !(da.beq db)
+    | _, _ => false
+
 def offsetFree (R : Registry) (m : Mode) (a : Qty) (b : Operand) : Except Err (Qty × Operand) :=
   if R.operandsMult a b then .ok (a, b)
+  else if R.dimsDiffer a b then .error .dimensionality
   else if !m.autoconvert then .error .offsetCalc
   else match R.toRoot m a with
     | .error e => .error e
